@@ -90,7 +90,9 @@ def run_case(c):
                 # invokes callbacks after the fill phase of the iteration that follows the reply, i.e. just
                 # before the last select of the call.
                 last = max(i for i, t in enumerate(trace) if t[0] == "select")
-                src = ret["args"][0] if ret["args"] else -1
+                import struct
+                payload = b"".join(struct.pack("<I", a) for a in ret["args"]) + bytes.fromhex(ret["data"])
+                src = struct.unpack_from("<I", payload)[0] if len(payload) >= 4 else -1
                 trace.insert(last, ["cb", op["id"], ret["cmd_rc"], ret["seq"], src])
             bursts.append(dict(trace=trace, outcome=outcome, start=start, ret=ret,
                                events=[[[dg(b) for b in ds], t] for ds, t in net.events[elo:]],
